@@ -91,8 +91,8 @@ class Rec:
 
     def viol(self, ob, func, what, sr, instance, **fields):
         kind = what.split(":")[0]
-        if kind == "raised":
-            sgn = sig(func, what, sr)          # systematic failures: one signature per function / exception / semiring
+        if kind in ("raised", "result-not-in-semiring", "ill-formed-label"):
+            sgn = sig(func, what, sr)          # systematic failures: one signature per function / failure / semiring
         else:
             sgn = sig(func, kind, instance, sr)
         if (ob, sgn) in self._seen:
@@ -119,18 +119,24 @@ class Rec:
         return True
 
     def compare_spec(self, ob, func, sr, instance, got, want, **fields):
-        """got is a spec-side value computed from the snapshot of a real object."""
+        """got: thunk computing a spec-side value from the snapshot of a real object.  The oracle side has been evaluated
+        before, so a singular closure here means the RETURNED machine has a divergent path sum."""
         self.out["n"] += 1
+        try:
+            got = got()
+        except ArithmeticError as e:
+            self.viol(ob, func, "returned-machine-diverges: " + str(e), sr, instance, expected=want, **fields)
+            return False
         if not num_close(got, want):
             self.viol(ob, func, "wrong-value", sr, instance, observed=got, expected=want, via="snapshot of the returned machine", **fields)
             return False
         return True
 
 
-def _wf_fst(hs):
-    """Snapshot labels that the spec evaluators can read: pairs or bare EPS."""
+def _wf_fst(hs, strict=False):
+    """Snapshot labels that the spec evaluators can read: pairs or (unless strict) the bare EPS, read as eps:eps."""
     for _, ab, _, _ in hs.arcs:
-        if ab != EPS and not (isinstance(ab, tuple) and len(ab) == 2):
+        if not (isinstance(ab, tuple) and len(ab) == 2) and (strict or ab != EPS):
             return False
     return True
 
@@ -143,8 +149,32 @@ def _snap(m, val):
     return bridge.from_wfsa(m, val)
 
 
+class _Acceptor:
+    """Spec evaluation of the snapshot of a returned acceptor (epsilon removal done on first use)."""
+
+    def __init__(self, ops, snap):
+        self.ops, self.snap, self.rep = ops, snap, None
+
+    def weight(self, s):
+        if self.rep is None:
+            self.rep = fcs.eps_free(self.ops, fcs.trim(self.ops, self.snap))
+        return fcs.accept_weight(self.ops, self.rep, s)
+
+
 def _accept_rep(ops, snap):
-    return fcs.eps_free(ops, fcs.trim(ops, snap))
+    return _Acceptor(ops, snap)
+
+
+class OutsideDomain(Exception):
+    pass
+
+
+def _oracle(f):
+    """Evaluate the ORACLE side; a singular system there means a divergent instance (outside the property's domain)."""
+    try:
+        return f()
+    except ArithmeticError as e:
+        raise OutsideDomain(str(e))
 
 
 # ------------------------------------------------------------------ composition of two transducers
@@ -157,7 +187,7 @@ def check_pair(case, rec):
         R, ops, conv, val = bridge.SEMIRINGS[sr]
         if ops.name not in oracle:
             comp = fcs.Composer(ops, bridge.spec_automaton(f, sr), bridge.spec_automaton(g, sr))
-            oracle[ops.name] = {(x, z): comp.weight(x, z) for x in xs for z in zs}
+            oracle[ops.name] = _oracle(lambda: {(x, z): comp.weight(x, z) for x in xs for z in zs})
         want = oracle[ops.name]
         F = bridge.to_fst(f, sr)
         Gm = bridge.to_fst(g, sr)
@@ -178,7 +208,7 @@ def check_pair(case, rec):
             rel = fcs.Relation(ops, hs)
             for x in xs:
                 for z in zs:
-                    rec.compare_spec(OB_COMPOSE, "FST.__matmul__", sr, inst, rel.weight(x, z), want[x, z], x=_s(x), z=_s(z), **desc)
+                    rec.compare_spec(OB_COMPOSE, "FST.__matmul__", sr, inst, lambda: rel.weight(x, z), want[x, z], x=_s(x), z=_s(z), **desc)
         # the user's observation (f @ g)(x, z)
         for x in xs:
             for z in zs:
@@ -202,9 +232,9 @@ def check_single(case, rec):
         R, ops, conv, val = bridge.SEMIRINGS[sr]
         fs = bridge.spec_automaton(f, sr)
         if ops.name not in oracle:
-            oracle[ops.name] = ({(x, y): fsaspec.fst_weight(ops, fs, x, y) for x in xs for y in ys},
-                                {x: fcs.project_weight(ops, fs, x, 0) for x in xs},
-                                {y: fcs.project_weight(ops, fs, y, 1) for y in ys})
+            oracle[ops.name] = _oracle(lambda: ({(x, y): fsaspec.fst_weight(ops, fs, x, y) for x in xs for y in ys},
+                                                {x: fcs.project_weight(ops, fs, x, 0) for x in xs},
+                                                {y: fcs.project_weight(ops, fs, y, 1) for y in ys}))
         want, want0, want1 = oracle[ops.name]
         inst = case["name"]
         desc = dict(f=bridge.fmt_automaton(f))
@@ -222,7 +252,7 @@ def check_single(case, rec):
                 continue
             rep = _accept_rep(ops, _snap(sec, val))
             for y in ys:
-                rec.compare_spec(OB_XSEC, "FST.__call__(x, None)", sr, inst, fcs.accept_weight(ops, rep, y), want[x, y], x=_s(x), y=_s(y), **desc)
+                rec.compare_spec(OB_XSEC, "FST.__call__(x, None)", sr, inst, lambda: rep.weight(y), want[x, y], x=_s(x), y=_s(y), **desc)
                 rec.compare(OB_XSEC, "FST.__call__(x, None)(y)", sr, inst, call(sec, y), want[x, y], val, x=_s(x), y=_s(y), **desc)
         for y in ys:
             st, sec = call(F, None, y)
@@ -232,7 +262,7 @@ def check_single(case, rec):
                 continue
             rep = _accept_rep(ops, _snap(sec, val))
             for x in xs:
-                rec.compare_spec(OB_XSEC, "FST.__call__(None, y)", sr, inst, fcs.accept_weight(ops, rep, x), want[x, y], x=_s(x), y=_s(y), **desc)
+                rec.compare_spec(OB_XSEC, "FST.__call__(None, y)", sr, inst, lambda: rep.weight(x), want[x, y], x=_s(x), y=_s(y), **desc)
                 rec.compare(OB_XSEC, "FST.__call__(None, y)(x)", sr, inst, call(sec, x), want[x, y], val, x=_s(x), y=_s(y), **desc)
         # transpose
         st, Ft = call(lambda: F.T)
@@ -248,7 +278,7 @@ def check_single(case, rec):
                 rel = fcs.Relation(ops, ts)
                 for x in xs:
                     for y in ys:
-                        rec.compare_spec(OB_T, "FST.T", sr, inst, rel.weight(y, x), want[x, y], x=_s(x), y=_s(y), **desc)
+                        rec.compare_spec(OB_T, "FST.T", sr, inst, lambda: rel.weight(y, x), want[x, y], x=_s(x), y=_s(y), **desc)
                         rec.compare(OB_CALL, "FST.__call__", sr, inst, call(Ft, y, x), want[x, y], val, x=_s(x), y=_s(y), on="f.T(y, x)", **desc)
         # projections
         for axis, strs, wantk in ((0, xs, want0), (1, ys, want1)):
@@ -259,7 +289,7 @@ def check_single(case, rec):
                 continue
             rep = _accept_rep(ops, _snap(P, val))
             for s in strs:
-                rec.compare_spec(OB_PROJ, f"FST.project({axis})", sr, inst, fcs.accept_weight(ops, rep, s), wantk[s], s=_s(s), **desc)
+                rec.compare_spec(OB_PROJ, f"FST.project({axis})", sr, inst, lambda: rep.weight(s), wantk[s], s=_s(s), **desc)
                 rec.compare(OB_PROJ, f"FST.project({axis})(s)", sr, inst, call(P, s), wantk[s], val, s=_s(s), **desc)
         if any(not ops.is_zero(w) for w in want.values()):
             rec.out["keys"].append(sig("single", case["name"], sr))
@@ -276,13 +306,20 @@ def _rel_checks(rec, ob, func, sr, inst, M, wantf, S1, S2, ops, val, **desc):
         rel = None
     else:
         rel = fcs.Relation(ops, ms)
+    snap_ok = rel is not None
     for x in S1:
         for y in S2:
             w = wantf(x, y)
             nz = nz or not ops.is_zero(w)
             if rel is not None:
-                rec.compare_spec(ob, func, sr, inst, rel.weight(x, y), w, x=_s(x), y=_s(y), **desc)
-            rec.compare(ob, func + "(...)(x, y)", sr, inst, call(M, x, y), w, val, x=_s(x), y=_s(y), **desc)
+                snap_ok = rec.compare_spec(ob, func, sr, inst, lambda: rel.weight(x, y), w, x=_s(x), y=_s(y), **desc) and snap_ok
+    # the user's evaluation M(x, y): when the machine itself is a well-formed FST denoting the right relation, a failure
+    # of the call belongs to FST.__call__ (WFSA.total_weight), otherwise to the constructor
+    mine = snap_ok and _wf_fst(ms, strict=True)
+    for x in S1:
+        for y in S2:
+            rec.compare(OB_CALL if mine else ob, "FST.__call__" if mine else func + "(...)(x, y)", sr, inst, call(M, x, y),
+                        wantf(x, y), val, x=_s(x), y=_s(y), on=func + "(...)(x, y)", **desc)
     return nz
 
 
@@ -344,7 +381,7 @@ def check_diag(case, rec):
         R, ops, conv, val = bridge.SEMIRINGS[sr]
         ms = bridge.spec_automaton(m, sr)
         fs = bridge.spec_automaton(f, sr)
-        wm = {s: fsaspec.wfsa_weight(ops, ms, s) for s in S}
+        wm = _oracle(lambda: {s: fsaspec.wfsa_weight(ops, ms, s) for s in S})
         Mr = bridge.to_wfsa(m, sr, cls=bridge.field_wfsa.WFSA)
         st, D = call(bridge.FST.diag, Mr)
         if st != "ok":
@@ -361,7 +398,7 @@ def check_diag(case, rec):
             rec.out["n"] += 1
             rec.viol(OB_COMPOSE, "FST.__matmul__[acceptor]", "raised: " + H.split(":")[0], sr, case["name"], message=H, **desc)
         else:
-            wf_ = {(x, y): ops.mul(fsaspec.fst_weight(ops, fs, x, y), wm[y]) for x in X for y in S}
+            wf_ = _oracle(lambda: {(x, y): ops.mul(fsaspec.fst_weight(ops, fs, x, y), wm[y]) for x in X for y in S})
             nz2 = _rel_checks(rec, OB_COMPOSE, "FST.__matmul__[acceptor]", sr, case["name"], H, lambda x, y: wf_[x, y], X, S, ops, val, **desc)
             nz = nz or nz2
         if nz:
@@ -375,8 +412,8 @@ def check_case(case):
     rec = Rec(case)
     try:
         KINDS[case["kind"]](case, rec)
-    except ArithmeticError:
-        # the spec's exact closure met a singular system: a divergent instance, outside the property's domain
+    except OutsideDomain:
+        # the oracle's exact closure met a singular system: a divergent instance, outside the property's domain
         return dict(n=0, keys=[], violations=[])
     return rec.out
 
